@@ -14,7 +14,31 @@ def _subst_model(exprs, model: dict, names):
     for n in names:
         width = 160 if n in ("msg_sender", "tx_origin") else 256
         subs.append((z3.BitVec(n, width), z3.BitVecVal(int(model.get(n, 0)), width)))
-    return [z3.simplify(z3.substitute(e, *subs)) for e in exprs]
+    return [interp_keccak(z3.simplify(z3.substitute(e, *subs))) for e in exprs]
+
+
+def interp_keccak(e):
+    """standard interpretation of keccak: f_sha3_N applied to a concrete value is the real hash (bottom-up)"""
+    from eth_hash.auto import keccak as _k
+
+    for _ in range(8):
+        pairs, seen, stack = [], set(), [e]
+        while stack:
+            t = stack.pop()
+            i = t.get_id()
+            if i in seen:
+                continue
+            seen.add(i)
+            if z3.is_app(t):
+                nm = t.decl().name()
+                if nm.startswith("f_sha3_") and t.num_args() == 1 and z3.is_bv_value(t.arg(0)):
+                    a = t.arg(0)
+                    pairs.append((t, z3.BitVecVal(int.from_bytes(_k(a.as_long().to_bytes(a.size() // 8, "big")), "big"), 256)))
+                stack.extend(t.children())
+        if not pairs:
+            return e
+        e = z3.simplify(z3.substitute(e, *pairs))
+    return e
 
 
 def replay_o1(c, model):
@@ -161,6 +185,13 @@ def run_programs(run, plist, want=("O1", "O2"), observers=None, jobs=None, cap=N
         except progs.HarnessTimeout:
             run.inconc(f"{cls_prefix}{p.name.split('#')[0]}/run", p.name, "halmos run exceeded the harness time limit")
             continue
+        except Exception as e:
+            # the engine itself raised out of SEVM.run (it is supposed to turn errors into path outcomes)
+            import traceback
+
+            run.harness_error(f"engine raised on {p.name}: {type(e).__name__}: {e} | "
+                              + " <- ".join(x.strip()[:90] for x in traceback.format_exc().strip().splitlines()[-6:-1:2]))
+            continue
         oracle = []
         for r in recs:
             try:
@@ -174,7 +205,14 @@ def run_programs(run, plist, want=("O1", "O2"), observers=None, jobs=None, cap=N
         except refevm.Unsupported as e:
             run.inconc(f"{cls_prefix}{p.name.split('#')[0]}/ref", p.name, f"reference: {e}")
             continue
-        obls, info = bisim.obligations(recs, hdata, ends, observers=observers, name=p.name)
+        try:
+            obls, info = bisim.obligations(recs, hdata, ends, observers=observers, name=p.name)
+        except Exception as e:  # a harness problem with one program must not lose the others
+            import traceback
+
+            run.harness_error(f"obligation construction failed for {p.name}: {type(e).__name__}: {e} | "
+                              + traceback.format_exc().strip().splitlines()[-3][:160])
+            continue
         info["bounded_loops"] = len(sevm.logs.bounded_loops)
         stats["programs"] = stats.get("programs", 0) + 1
         stats["multi_path"] = stats.get("multi_path", 0) + (1 if len(recs) > 1 else 0)
